@@ -19,6 +19,10 @@ SIG_OOB = "tmap-search-reads-x-length"
 SIG_EQT = "tmap-equal-times-nan-cast"
 SECOND = 1 << 30
 I64MIN, I64MAX = -(1 << 63), (1 << 63) - 1
+# JLS_TMAP_MODEL=fixed: compare against the model of the minimally repaired code (TmapModel.tmap_*_fixed, proved
+# equal to the present code's model wherever that is defined: C12_tmap_fixed_eq); for validating a fix: commit
+import os
+MODEL_FIXED = os.environ.get("JLS_TMAP_MODEL", "") == "fixed"
 COUNTS = (1, 2, 3, 10, 999, 1000, 1001, 2000, 2500)
 
 
@@ -415,7 +419,7 @@ def check_case(ctx, case, variant, line, mres, cres, qmeta, stats, phase):
         if stats["viol"][kind] > 3:
             return
         name = "tmap_%s_%s_%d.txt" % (kind, variant, stats["viol"][kind])
-        marg = "asan" if variant == "asan" else "plain"
+        marg = "fixed" if MODEL_FIXED else ("asan" if variant == "asan" else "plain")
         txt = ("property C12 (tmap): %s\nbuild=%s tag=%s entries=%d rate=%s\nline=%s\nimplementation=%s\nmodel=%s\n"
                "replay: echo '%s' | JLS_TMAP_STDERR=1 %s/%s/jlsrun tmap\n"
                "model:  echo '%s' | %s/jlsmodel tmap %s\n" % (what, variant, case.tag, n, case.rate, line, cres, mres, line, vlib.BUILD, variant, line, vlib.BUILD, marg))
@@ -468,12 +472,24 @@ def check_case(ctx, case, variant, line, mres, cres, qmeta, stats, phase):
         if rc != 0:
             viol("rc", "unexpected rc=%d for %s%s" % (rc, d, hx(q)))
             continue
+        if d == "t" and not strict_t:
+            # map with equal consecutive times (allowed: non-decreasing): the exact value is not unique.  The model
+            # says Fault FP_invalid (undefined behaviour) for a zero-width segment, which any C outcome is consistent
+            # with; the property still demands a result between the anchors around the query time
+            stats["eqt"] += 1
+            before = [case.x[i] for i in range(n) if case.y[i] < q]
+            after = [case.x[i] for i in range(n) if case.y[i] > q]
+            if before and after and not (before[-1] <= cv <= after[0]):
+                stats["eqt_bad"] += 1
+                viol("eqt", "time -> sample id on a map with equal consecutive times: %s%s -> %s is not between the neighbouring anchors' ids %s..%s "
+                     "(dt/ds with ds = 0: NaN/inf cast to int64, undefined behaviour); model: %s" % (d, hx(q), hx(cv), hx(before[-1]), hx(after[0]), "FAULT:FPINV" if mm is None else mm), sig=SIG_EQT)
+            elif (not before or not after) and q in case.y and not (case.x[case.y.index(q)] <= cv <= case.x[n - 1 - case.y[::-1].index(q)]):
+                stats["eqt_bad"] += 1
+                viol("eqt", "time -> sample id at an anchor time shared by several anchors: %s%s -> %s is none of their ids %s..%s (NaN/inf cast to int64); model: %s"
+                     % (d, hx(q), hx(cv), hx(case.x[case.y.index(q)]), hx(case.x[n - 1 - case.y[::-1].index(q)]), "FAULT:FPINV" if mm is None else mm), sig=SIG_EQT)
+            continue
         ex = exact_value(case, d, q)
         if ex is None:
-            # zero-width time segment: the C divides by zero in double and casts NaN/inf (undefined behaviour)
-            stats["eqt"] += 1
-            viol("eqt", "time -> sample id across two anchors with equal time: dt/ds with ds = 0, NaN/inf cast to int64 "
-                 "(undefined behaviour; x86 result %s); query %s%s; model: %s" % (hx(cv), d, hx(q), "FAULT:FPINV" if mm is None else mm), sig=SIG_EQT)
             continue
         yc = exact_base(case, d, q)
         kmag = abs(ex - yc)                      # |k|: offset from the segment's first anchor
@@ -481,13 +497,6 @@ def check_case(ctx, case, variant, line, mres, cres, qmeta, stats, phase):
         tol = 1 if guard else 1 + kmag * Fraction(1, 1 << 50)
         if not guard:
             stats["beyond_guard"] += 1
-        if d == "t" and not strict_t:
-            # map with equal consecutive times, a segment of non-zero width: the property is still evaluated,
-            # everything is routed to the equal-times class
-            if abs(cv - ex) > tol:
-                stats["eqt"] += 1
-                viol("eqt", "time -> sample id on a map with equal consecutive times: %s%s -> %s, exact %s" % (d, hx(q), hx(cv), float(ex)), sig=SIG_EQT)
-            continue
         produced.append((d, q, cv, guard))
         # (1) model vs implementation: exact where binary64 and exact arithmetic must agree, else +-1
         if mm is not None and mm[1] is not None:
@@ -549,6 +558,8 @@ def run_pass(ctx, cases, lines, metas, stats, phase, variants):
     results = {}
     for variant in variants:
         marg = ["asan"] if variant == "asan" else ["plain", "-5a5a5a5a"]
+        if MODEL_FIXED:
+            marg = ["fixed"]
         model = vlib.run_model("tmap", lines, args=marg)
         impl = vlib.run_c(variant, "tmap", lines)
         out = []
@@ -562,7 +573,7 @@ def run_tmap(ctx, build=True):
     if build:
         vlib.build(ctx, PROP_FILES, variants=("plain", "asan"))
     stats = {"viol": {}, "nviol": 0, "oob": 0, "eqt": 0, "ovf": 0, "cmp_exact": 0, "cmp_pm1": 0, "gap1": 0, "cmp_float": 0,
-             "off_half": 0, "beyond_guard": 0, "classes": {}, "inverse": 0, "inverse_na": 0, "inverse_exact": 0}
+             "off_half": 0, "beyond_guard": 0, "eqt_bad": 0, "classes": {}, "inverse": 0, "inverse_na": 0, "inverse_exact": 0}
     # constants
     cm = vlib.run_model("tmap", ["consts"], shards=1)
     cc = vlib.run_c("asan", "tmap", ["consts"], shards=1)
@@ -614,7 +625,7 @@ def run_tmap(ctx, build=True):
         "model_vs_implementation_exact": stats["cmp_exact"], "model_vs_implementation_within_1": stats["cmp_pm1"], "of_which_differ_by_1 (binary64 gap, measured)": stats["gap1"],
         "binary64_reevaluation_equal": stats["cmp_float"], "implementation_off_exact_by_more_than_half_tick": stats["off_half"],
         "inverse_checked": stats["inverse"], "inverse_exact": stats["inverse_exact"], "inverse_not_applicable(<1 tick/sample or equal times)": stats["inverse_na"],
-        "queries_beyond_the_2^51_guard(relative tolerance)": stats["beyond_guard"], "over_read_faults(asan)": stats["oob"], "equal_time_queries": stats["eqt"], "overflow_ub_cases": stats["ovf"],
+        "queries_beyond_the_2^51_guard(relative tolerance)": stats["beyond_guard"], "over_read_faults(asan)": stats["oob"], "equal_time_queries": stats["eqt"], "equal_time_queries_with_garbage_result": stats["eqt_bad"], "overflow_ub_cases": stats["ovf"],
         "violations_by_kind": dict(stats["viol"]),
     }
     ctx.cov["rule"] = ("case = one map (rate, generated or explicit adds) + one query; maps: entry counts %s and every count 1..40, rates 0.5 Hz..2^32 Hz, "
